@@ -62,7 +62,7 @@ fn main() {
             d(6, 8),
         ),
     ];
-    sw::drive(&mut rec, PROP, 2, &fixed, args.seed, args.budget(250, 8000), 10);
-    sw::drive_mem(&mut rec, PROP, args.seed, args.budget(300, 8000));
+    sw::drive(&mut rec, PROP, 2, &fixed, args.seed, args.budget(250, 5000), 10);
+    sw::drive_mem(&mut rec, PROP, args.seed, args.budget(300, 5000));
     rec.finish(args.seed, &args.tier);
 }
